@@ -424,6 +424,15 @@ func Region(t *rapid.T, p *Prog) {
 	p.Main = s[:i] + node + s[j:]
 	addFlag(p, "splice")
 	addFlag(p, "region:"+op)
+	if strings.HasPrefix(op, "helper") {
+		// a region moved into a helper may be rendered in another context than the one it was written for: what was
+		// plain text in <title> or <textarea> (`<!-->`, `--!>`) is one of the comment corner cases of K-cmt elsewhere
+		for _, pat := range []string{"<!-->", "<!--->", "--!>"} {
+			if strings.Contains(r, pat) {
+				addFlag(p, "zone:K-cmt")
+			}
+		}
+	}
 }
 
 // flagAssembled: the static texts inside the inserted node (branch bodies), repeated up to twice (loop iterations),
